@@ -295,3 +295,31 @@ void h_parse_array_filter(void) {
   if (r == OK && nc >= 1) VWITNESS("elements"); if (r == INVALID) VWITNESS("invalid");
 }
 #endif
+
+/* ================= parseObject<Filter>: the member filter decides, per member, between lookup/create/parse and skip.
+ * FSHAPE 0 true, 1 {"k":true}, 2 {"x":true}, 3 {}, 4 {"*":true}; every key produced by the (cut) key scanner is "k". */
+#if defined(CUT_PKEY) && defined(CUT_PV_FILTER)
+#ifndef FSHAPE
+#define FSHAPE 1
+#endif
+void h_parse_object_filter(void) {
+  uint8_t in[TOT]; in[0] = '{'; for (unsigned i = 1; i < TOT; i++) in[i] = vin_u8();
+  uint8_t L = vin_u8(); g_in = in; g_n = TOT;
+  struct Out o = {0};
+  w_parse_object_f(in, TOT, L, FSHAPE, &o);
+  const int keep = FSHAPE == 0 || FSHAPE == 1 || FSHAPE == 4;
+  VASSERT((o.aux & 1) == 1u, "true and every object filter admit an object");
+  if (g_madd_failed) { VASSERT(o.code == NOMEM, "a member slot that cannot be allocated: NoMemory"); return; }
+  unsigned nc, nk, cons; int r = ref_object(L, &nc, &nk, &cons);
+  if (r < 0) { VASSUME(0); }
+  VASSERT(o.code <= 5 && (int)o.code == r, "same codes as the reference object recogniser, whatever the filter keeps");
+  VASSERT(g_calls == nc && g_keyc == nk && o.consumed == cons, "keys and values are scanned exactly when the grammar asks for them; same bytes consumed");
+  for (unsigned c = 0; c < MAXC; c++) if (c < g_calls) {
+    VASSERT(g_limit_seen[c] == (uint8_t)(L - 1), "every value receives the nesting limit minus one, kept or discarded (TooDeep also inside discarded parts)");
+    VASSERT(g_kind[c] == (keep ? 0u : 1u), "a member is parsed when its filter allows it and skipped otherwise");
+  }
+  VASSERT(keep || (g_gets == 0 && g_madds == 0 && g_saves == 0 && g_clears == 0), "a discarded member is neither looked up nor created nor cleared: filtering never requests more memory");
+  if (L == 0) VASSERT(o.code == TOODEEP && g_calls == 0 && g_keyc == 0, "limit 0: TooDeep first");
+  if (r == OK && nc >= 1) VWITNESS("members"); if (r == INVALID) VWITNESS("invalid");
+}
+#endif
